@@ -69,6 +69,7 @@ def corpus_programs(run):
                 p.meta['file'] = fn
                 p.meta['expect_class'] = j.get('expect_class')
                 p.meta['finding'] = j.get('finding')
+                p.meta['must_pass'] = j.get('must_pass')
                 yield p
 
 
@@ -301,7 +302,7 @@ def dynamic_phase(run, prop, programs):
     for p in programs:
         j = p.to_json()
         j['kind'] = p.kind
-        for k in ('scenario', 'expect_class', 'finding'):
+        for k in ('scenario', 'expect_class', 'finding', 'must_pass'):
             if p.meta.get(k):
                 j[k] = p.meta[k]
         tasks.append((prop, j, b['runs_per_program']))
@@ -375,6 +376,8 @@ def dynamic_phase(run, prop, programs):
             continue
         for f in r['failing']:
             cls = f['cls'] if f['cls'] not in stale else None
+            if t[1].get('must_pass'):
+                cls = None        # witness of a REPAIRED finding: it suppresses nothing and must pass
             classes[f['cls'] or 'UNCLASSIFIED'] += 1
             case = {'program': t[1], 'args': f['args'], 'decisions': f['decisions'], 'function_id': f['fid'], 'observation': f['detail'],
                     'class_predicate': f['cls'], 'lean': f['lean']}
@@ -472,7 +475,7 @@ def classify_c07(f, ans):
         if rf.get('lambda'):
             cls.add('read_by_lambda_called_after_its_statement')
         elif rf.get('nonlocal'):
-            cls.add('nonlocal_write_in_reaching_closure')
+            cls.add('nonlocal_declared_below_reaching_closure')
         else:
             cls.add(None)
     if not cls or None in cls:
